@@ -24,7 +24,11 @@ RULE = ('entropies: every combination of the 32-bit words {00000000,00000001,7ff
         'list, same-index word of another list, capitalised word, non-word}. A case is non-trivial when the '
         'library produced a sentence/entropy/seed that was compared with the reference, or rejected a sentence the '
         'reference rejects; distinct by (language, entropy, input form) resp. (language, sentence, passphrase, form) '
-        'resp. (language, sentence, position, substitute).')
+        'resp. (language, sentence, position, substitute). Histories: every sequence of length <= 2 (thorough 3) over '
+        '16 operations (to_mnemonic, to_entropy / to_seed / sanitize_mnemonic / detect_language with own- and '
+        'foreign-language, valid and invalid sentences, generate, word, wordlist) on ONE Mnemonic(lang) object for '
+        'several (object language, foreign language) pairs; every step is compared with the reference for the '
+        'object\'s language (resp. the sentence\'s language for to_seed/sanitize/detect); distinct by history.')
 ASSUMPTIONS = [
     'trusted base: hashlib (sha256, pbkdf2_hmac, hmac-sha512), unicodedata; vf/ref/bip39.py validated at start-up on '
     'the Trezor vectors and the Japanese vector with a non-normalised passphrase',
@@ -38,9 +42,12 @@ ASSUMPTIONS = [
     'a substituted sentence whose checksum happens to match is a valid sentence of another entropy and must '
     'decode to that entropy (decided by the reference)',
     'rejection = any exception (the library raises ValueError and Warning)',
-    'sentences of a wrong word count and Mnemonic(<other language>) instances fed with a valid sentence are not '
-    'judged (the property only speaks of checksum and out-of-list words); HDKey.from_passphrase has no language '
-    'argument, so it is judged with sentences of every language',
+    'sentences of a wrong word count are not judged (the property only speaks of checksum and out-of-list words); '
+    'Mnemonic(lang).to_entropy decodes with the list of the object, so a sentence with a word outside that list is '
+    'rejected there, while to_seed / sanitize_mnemonic / detect_language detect the language of the sentence '
+    '(HDKey.from_passphrase has no language argument, so it is judged with sentences of every language)',
+    'a Mnemonic object is a pure function of its language: the result of an operation must not depend on the '
+    'operations performed on the object before (history sub-space)',
 ]
 
 A5 = ['00000000', '00000001', '7fffffff', '80000000', 'ffffffff']
@@ -444,7 +451,159 @@ def sub_generate(case):
     return rec.result()
 
 
-SUBS = {'ent': sub_ent, 'asciihex': sub_asciihex, 'seed': sub_seed, 'subst': sub_subst, 'generate': sub_generate}
+# ----------------------------------------------------------------------------------------------------------
+# sub-space: histories on ONE Mnemonic object (the object must stay a pure function of its language)
+HIST_OPS = ('to_mnemonic', 'to_mnemonic_hex', 'to_entropy_own', 'to_entropy_own_badsum', 'to_entropy_foreign',
+            'to_entropy_foreign_badword', 'to_seed_own', 'to_seed_foreign', 'to_seed_foreign_badword',
+            'sanitize_own', 'sanitize_foreign', 'detect_own', 'detect_foreign', 'generate', 'word', 'wordlist')
+
+
+def _distinct_sentence(lang, other, tag):
+    """A 12-word entropy whose sentence in `lang` has a word that is in no other list's overlap with `other`
+    (so language detection and list membership are unambiguous), chosen deterministically."""
+    oset = set(bip39.wordlist(other))
+    k = 0
+    while True:
+        ent = hashlib.sha256(b'C14 hist %s %s %s %d' % (lang.encode(), other.encode(), tag.encode(), k)).digest()[:16]
+        words = bip39.to_words(ent, lang)
+        if sum(1 for w in words if w not in oset) >= 2:
+            return ent, words
+        k += 1
+
+
+def _hist_fixture(own, foreign):
+    e1, w_own = _distinct_sentence(own, foreign, 'own')
+    e2, _ = _distinct_sentence(own, foreign, 'own2')
+    e3, _ = _distinct_sentence(own, foreign, 'gen')
+    e4, w_for = _distinct_sentence(foreign, own, 'foreign')
+    wl = bip39.wordlist(own)
+    bad = None
+    for d in range(1, 2048):
+        cand = w_own[:-1] + [wl[(wl.index(w_own[-1]) + d) % 2048]]
+        if bip39.to_entropy(cand, own) is None:
+            bad = cand
+            break
+    w_forbad = list(w_for)
+    w_forbad[3] = 'zzyzx'
+    return {'e1': e1, 'e2': e2, 'e3': e3, 'e4': e4, 'own': w_own, 'own_bad': bad, 'for': w_for, 'for_bad': w_forbad}
+
+
+def _expected_language(words):
+    counts = {l: sum(1 for w in words if w in set(bip39.wordlist(l))) for l in bip39.LANGS}
+    best = max(counts.values())
+    top = [l for l in counts if counts[l] == best]
+    return top[0] if len(top) == 1 and best else None
+
+
+def _hist_apply(m, op, own, foreign, fx):
+    """Run one operation on the object; return (kind, observed, expected) with kind in value/raise."""
+    def call(f):
+        try:
+            return ('value', f())
+        except Exception as e:
+            return ('raise', '%s: %s' % (type(e).__name__, str(e)[:80]))
+    S = lambda ws: ' '.join(ws)
+    if op == 'to_mnemonic':
+        return call(lambda: nfkd(m.to_mnemonic(fx['e1']))), ('value', nfkd(S(bip39.to_words(fx['e1'], own))))
+    if op == 'to_mnemonic_hex':
+        return call(lambda: nfkd(m.to_mnemonic(fx['e2'].hex()))), ('value', nfkd(S(bip39.to_words(fx['e2'], own))))
+    if op == 'to_entropy_own':
+        return call(lambda: m.to_entropy(S(fx['own'])).hex()), ('value', fx['e1'].hex())
+    if op == 'to_entropy_own_badsum':
+        return call(lambda: m.to_entropy(S(fx['own_bad'])).hex()), ('raise', None)
+    if op == 'to_entropy_foreign':        # a word outside the object's list: rejected (the reference agrees)
+        assert bip39.to_entropy([nfkd(w) for w in fx['for']], own) is None
+        return call(lambda: m.to_entropy(S(fx['for'])).hex()), ('raise', None)
+    if op == 'to_entropy_foreign_badword':
+        return call(lambda: m.to_entropy(S(fx['for_bad'])).hex()), ('raise', None)
+    if op == 'to_seed_own':
+        return call(lambda: m.to_seed(S(fx['own']), 'pw').hex()), ('value', bip39.seed(S(fx['own']), 'pw').hex())
+    if op == 'to_seed_foreign':           # to_seed detects the language of the sentence
+        return call(lambda: m.to_seed(S(fx['for']), 'pw').hex()), ('value', bip39.seed(S(fx['for']), 'pw').hex())
+    if op == 'to_seed_foreign_badword':
+        return call(lambda: m.to_seed(S(fx['for_bad']), 'pw').hex()), ('raise', None)
+    if op == 'sanitize_own':
+        return call(lambda: nfkd(m.sanitize_mnemonic(S(fx['own'])))), ('value', nfkd(S(fx['own'])))
+    if op == 'sanitize_foreign':
+        return call(lambda: nfkd(m.sanitize_mnemonic(S(fx['for'])))), ('value', nfkd(S(fx['for'])))
+    if op == 'detect_own':
+        return call(lambda: m.detect_language(S(fx['own']))), ('value', _expected_language([nfkd(w) for w in fx['own']]))
+    if op == 'detect_foreign':
+        return call(lambda: m.detect_language(S(fx['for']))), ('value', _expected_language([nfkd(w) for w in fx['for']]))
+    if op == 'generate':
+        real = os.urandom
+        os.urandom = lambda n: fx['e3'][:n]
+        try:
+            r = call(lambda: nfkd(m.generate(128)))
+        finally:
+            os.urandom = real
+        return r, ('value', nfkd(S(bip39.to_words(fx['e3'], own))))
+    if op == 'word':
+        wl = bip39.wordlist(own)
+        return call(lambda: [m.word(0), m.word(1000), m.word(2047)]), ('value', [wl[0], wl[1000], wl[2047]])
+    if op == 'wordlist':
+        return call(lambda: hashlib.sha256('\n'.join(m.wordlist()).encode()).hexdigest()), \
+            ('value', hashlib.sha256('\n'.join(bip39.wordlist(own)).encode()).hexdigest())
+    raise ValueError(op)
+
+
+def _hist_wrong_class(op, own, foreign, fx, got):
+    """Name the wrong behaviour: the result that the *foreign* language would give, or unexplained."""
+    kind, val = got
+    if kind == 'raise':
+        return 'raised'
+    try:
+        if op in ('to_mnemonic', 'to_mnemonic_hex', 'generate'):
+            e = {'to_mnemonic': fx['e1'], 'to_mnemonic_hex': fx['e2'], 'generate': fx['e3']}[op]
+            if val == nfkd(' '.join(bip39.to_words(e, foreign))):
+                return 'sentence_in_foreign_language'
+        if op == 'word':
+            wl = bip39.wordlist(foreign)
+            if val == [wl[0], wl[1000], wl[2047]]:
+                return 'words_of_foreign_language'
+        if op == 'wordlist' and val == hashlib.sha256('\n'.join(bip39.wordlist(foreign)).encode()).hexdigest():
+            return 'wordlist_of_foreign_language'
+        if op in ('to_entropy_foreign',) and val == fx['e4'].hex():
+            return 'foreign_sentence_decoded_with_foreign_list'
+    except Exception:
+        pass
+    return 'accepted' if op.endswith(('badsum', 'badword', 'to_entropy_foreign')) else 'wrong_value'
+
+
+def sub_hist(case):
+    """case = {'own', 'foreign', 'first': op, 'depth': d}: every operation sequence of length <= d that starts
+    with `first`, each on a fresh Mnemonic(own) object; every step's result is compared with the reference."""
+    from bitcoinlib.mnemonic import Mnemonic
+    own, foreign, depth = case['own'], case['foreign'], case['depth']
+    fx = _hist_fixture(own, foreign)
+    rec = Rec()
+    seqs = [[case['first']]]
+    for d in range(1, depth):
+        seqs += [[case['first']] + list(t) for t in itertools.product(HIST_OPS, repeat=d)]
+    traces = 0
+    for seq in seqs:
+        m = Mnemonic(own)
+        traces += 1
+        for i, op in enumerate(seq):
+            got, exp = _hist_apply(m, op, own, foreign, fx)
+            rec.n += 1
+            ok = (got[0] == 'raise') if exp[0] == 'raise' else (got[0] == 'value' and (exp[1] is None or got[1] == exp[1]))
+            if ok:
+                rec.o('hist_%s' % ('rejected' if exp[0] == 'raise' else 'ok'))
+                continue
+            cls = _hist_wrong_class(op, own, foreign, fx, got)
+            fresh = 'fresh_object' if i == 0 else 'after_history'
+            rec.dev('history|%s|%s|%s' % (op, cls, fresh),
+                    {'object_language': own, 'foreign_language': foreign, 'history': seq[:i + 1],
+                     'got': got[1] if isinstance(got[1], (str, list)) else repr(got[1]),
+                     'expected': exp[1] if exp[0] == 'value' else 'an exception'})
+            rec.o('hist_deviation')
+        rec.nt.add('%s>%s:%s' % (own, foreign, '>'.join(seq)))
+    return rec.result(traces)
+
+
+
+SUBS = {'hist': sub_hist, 'ent': sub_ent, 'asciihex': sub_asciihex, 'seed': sub_seed, 'subst': sub_subst, 'generate': sub_generate}
 
 
 # ----------------------------------------------------------------------------------------------------------
@@ -565,6 +724,18 @@ def run(ctx):
                 for e in sample[length][:2] + ['00' * length, 'ff' * length]:
                     cases.append({'lang': lang, 'ent': e})
         ctx.pmap('generate', cases)
+    if want('hist'):
+        pairs = [('english', 'spanish'), ('italian', 'english'), ('french', 'japanese'),
+                 ('chinese_simplified', 'chinese_traditional')]
+        if not q:
+            pairs += [('japanese', 'chinese_simplified'), ('spanish', 'french'), ('chinese_traditional', 'english'),
+                      ('dutch', 'portuguese'), ('portuguese', 'italian')]
+        depth = 2 if q else 3
+        cases = [{'own': o, 'foreign': f, 'first': op, 'depth': depth} for o, f in pairs
+                 if o in langs and f in langs for op in HIST_OPS]
+        rets = ctx.pmap('hist', cases, chunk=1)
+        ctx.note('histories', {'object/foreign language pairs': pairs, 'max_length': depth, 'operations': list(HIST_OPS),
+                               'histories_executed_on_fresh_objects': sum(r or 0 for r in rets)})
     ctx.note('bounds', {'tier': ctx.tier, 'languages': langs, 'entropies_by_language/length': counts,
                         'full_product_lengths': ({l: [16] if l in FULL_LANGS else [] for l in langs} if q else
                                                  {l: [16, 20, 24] if l in FULL_LANGS else [16, 20] for l in langs}),
